@@ -570,7 +570,8 @@ def header_scenario(draw):
 
 def plan_c19(tier):
     n, per = (4, 60) if tier == 'quick' else (6, 3000)
-    return [{'kind': 'server_built', 'n': per} for _ in range(n)]
+    m, perm = (6, 40) if tier == 'quick' else (8, 2500)
+    return [{'kind': 'server_built', 'n': per} for _ in range(n)] + [{'kind': 'relayed', 'n': perm} for _ in range(m)]
 
 
 def check_server_built(scenario, schedule, stats=None):
@@ -610,7 +611,78 @@ def check_server_built(scenario, schedule, stats=None):
             stats.nt(['teams', t, len(scenario['boards'])], {'teams': t, 'line': [x for d, x in r.client_logs[0] if d == '<'][1]} if len(t[0]) < 6 else None)
 
 
+def client_parse_problems(scenario, r):
+    """Every line the running server put on a connection, read with the BUNDLED client's own parsers (not the tolerant
+    reference readers): it must mean what the script says - own and dummy's cards, every relayed call (as the seats sent
+    them: any letter case, alert suffixes) and card (either notation), lead prompts, board headers, team names."""
+    from bridge_env.network_bridge.client import Client
+    from bridge_env.network_bridge.socket_interface import MessageInterface
+    out = []
+    for s in range(4):
+        lines = [t for d, t in r.client_logs[s] if d == '<' and t is not None]
+        exp = seat_events(scenario, s)
+        if len(lines) != len(exp):
+            return [('a seat was sent more or fewer messages than the protocol entitles it to', {'seat': A.SEATS[s], 'received': len(lines), 'expected': len(exp)})]
+        decl = None
+        bi = -1
+        for line, (kind, val) in zip(lines, exp):
+            try:
+                if kind == 'teams':
+                    ok = tuple(Client.parse_team_names(line)) == tuple(val)
+                elif kind == 'start':
+                    bi += 1
+                    res = A.result(scenario['boards'][bi]['dealer'], scenario['boards'][bi]['calls'])
+                    decl = None if res is None else res[2]
+                    ok = line.lower() == 'start of board'
+                elif kind == 'board':
+                    num, dealer, vul = Client.parse_board(line)
+                    ok = num == val[0] and dealer is be.SEAT[val[1]] and vul is be.VUL[val[2]]
+                elif kind == 'cards':
+                    who = 'Dummy' if val[0] == 'Dummy' else be.FORMAL[val[0]]
+                    hs, hv = Client.parse_hand(Client.parse_cards(line, who))
+                    ok = {be.CARD_IDX[c] for c in hs} == set(val[1]) and list(hv) == [1 if c in val[1] else 0 for c in range(52)]
+                elif kind == 'call':
+                    ok = MessageInterface.parse_bid(line, be.FORMAL[val[0]]) is be.BID[val[1]]
+                elif kind == 'card':
+                    ok = MessageInterface.parse_card(line, be.SEAT[val[0]]) == be.CARD[val[1]]
+                elif kind == 'lead':
+                    dummy = be.SEAT[(decl + 2) % 4]
+                    want = dummy if val == 'Dummy' else be.SEAT[val]
+                    ok = Client.parse_leader_message(line, dummy) is want
+                elif kind == 'end':
+                    ok = line == 'End of session'
+                else:
+                    ok = True
+            except Exception as e:  # noqa
+                out.append((f"the bundled client's parser rejects a message the server sent: {kind}", {'seat': A.SEATS[s], 'line': line, 'exception': repr(e)[:200]}))
+                return out
+            if not ok:
+                out.append((f"the bundled client's parser understands a message the server sent differently: {kind}", {'seat': A.SEATS[s], 'line': line, 'expected': _ev((kind, val)) if kind in ('cards', 'call', 'card') else repr(val)}))
+                return out
+    return out
+
+
+def check_relayed(scenario, schedule, stats=None):
+    r = run_case(scenario, schedule)
+    if r.outcome.status != 'completed' or r.server_exc is not None or r.client_exc:
+        first_problem(completion_problems(scenario, r), scenario, schedule, r)
+    first_problem(stream_problems(scenario, r), scenario, schedule, r)
+    first_problem(client_parse_problems(scenario, r), scenario, schedule, r)
+    if stats is not None:
+        n = sum(1 for s_ in range(4) for d, t in r.client_logs[s_] if d == '<' and t is not None)
+        stats.evaluated(n)
+        stats.cls("server-sent lines read with the bundled client's parsers", n)
+        f = scenario_features(scenario, schedule)
+        if 'alerts' in f and 'played board' in f:
+            stats.cls('sessions with alerted calls relayed')
+            stats.nt(['relay', scenario], None)
+
+
 def run_shard_c19(spec, seed, tier, stats):
+    if spec['kind'] == 'relayed':
+        v = run_hypothesis(lambda scenario, schedule: check_relayed(scenario, schedule, stats),
+                           {'scenario': SCENARIO(1, 2, 4), 'schedule': SCHEDULE()}, seed, spec['n'], tier == 'thorough')
+        return [reduce_violation(lambda sc, sch, st_=None, **kw: check_relayed(sc, sch, st_), v)] if v else []
     v = run_hypothesis(lambda scenario, schedule: check_server_built(scenario, schedule, stats),
                        {'scenario': header_scenario(), 'schedule': SCHEDULE()}, seed, spec['n'], tier == 'thorough')
     return [v] if v else []
